@@ -540,6 +540,16 @@ func (w *hdrWorld) run() {
 						store.MockStorage.Write(w.ctx, fmt.Sprintf("headers/%08x", file), buf.Bytes(), nil)
 					}
 				}
+				if len(op.Exp.Invalid) > 0 {
+					// the store also holds a list of invalid-marked hashes (a file of its own)
+					buf := &bytes.Buffer{}
+					binary.Write(buf, binary.LittleEndian, uint32(len(op.Exp.Invalid)))
+					for _, b := range op.Exp.Invalid {
+						h := w.firstHash(b)
+						h.Serialize(buf)
+					}
+					store.MockStorage.Write(w.ctx, "headers/invalid", buf.Bytes(), nil)
+				}
 				r2 := w.newRepo(store)
 				if err := w.doLoad(r2); err != nil {
 					w.fail("C11", step, op, "load of a legacy (version 0) store: "+err.Error())
